@@ -130,12 +130,14 @@ def fill_section(rng, sec, curve, n):
     for _ in range(rng.randint(0, 5)):
         name = rng.choice(NAMES)
         if curve:
-            it = CurveItem(name, rng.choice(["", "m", "US/F"]), rand_value(rng), rng.choice(["", "descr"]), rand_array(rng, n))
+            it = CurveItem(name, rng.choice(["", "m", "US/F", "(ohm.m)", "[(v/v)]"]), rand_value(rng), rng.choice(["", "descr"]), rand_array(rng, n))
             if rng.random() < 0.4:
                 # the array assigned afterwards, as read(), update_curve, las[m] = array and set_data do (not through the constructor)
                 it.data = rand_array(rng, n)
         else:
-            it = HeaderItem(name, rng.choice(["", "m"]), rand_value(rng), rng.choice(["", "descr"]))
+            it = HeaderItem(name, rng.choice(["", "m", "[m]", "((x))"]), rand_value(rng), rng.choice(["", "descr"]))
+        if rng.random() < 0.2:
+            it.unit = rng.choice(["(ohm.m)", "[(ohm.m)]", "((v/v))", "[ft]"])       # a unit assigned after construction
         if rng.random() < 0.3 and len(sec):
             sec.insert(rng.randint(-1, len(sec)), it)
         else:
